@@ -150,7 +150,7 @@ fn run_bytes(ctx: &mut Ctx, spaces: Vec<ByteSpace>, f: impl Fn(&[u8], &mut Local
 fn byte_bounds(ctx: &mut Ctx) {
     ctx.bound("S1", "byte0 (all 256) x 13 packet types x 7 length-field variants x lengths 0..=56 x 6 last bytes x 3 fills; and all 256 packet types on a reduced first/last byte alphabet");
     ctx.bound("S2", ctx.tier.pick("base set W (~190 packets): every 1-byte substitution over all 256 values; every 2-byte substitution over 12 symbols for bases <= 24 bytes", "k=1 over 256 values; k=2 over 26 symbols for bases <= 48 bytes"));
-    ctx.bound("S6 / tiles", "giants (262144-byte packets of each type, giant feedback packets under each FCI gate, 65536 BYEs ...) all concatenations of 1..=3 tiles of the 12-kind tile menu, and chains of {7,8,9,15..18,31..34,63,65,130} mixed-size tiles x 12 tails");
+    ctx.bound("S6 / tiles", "giants (262144-byte packets of each type, giant feedback packets under each FCI gate, 65536 BYEs ...) all concatenations of 1..=3 tiles of the 12-kind tile menu, and chains of {7,8,9,15..18,31..34,63,65,130,255,256,257,300,513,1025} mixed-size tiles x 12 tails");
     ctx.bound("S5", "every truncation and +1..+8 extension of W, with/without length re-synchronisation");
     ctx.assume("byte strings outside these spaces are not explored");
 }
@@ -246,6 +246,27 @@ pub fn c08(ctx: &mut Ctx) {
                             l.hit("accepted:Compound::next");
                             l.validated += 1;
                             judge_generic(l, "Compound::next", &s[a..b], &h, variant);
+                        }
+                    }
+                }
+            }
+        }
+        // third-party typed parsers built on the public helper are typed parsers too (6 type numbers x 4 minimum sizes)
+        if s.len() <= 64 {
+            for &pt in crate::subject::ext::EXT_PTS.iter() {
+                for &min in crate::subject::ext::EXT_MINS.iter() {
+                    l.transitions += 1;
+                    match guard::catch(|| crate::subject::ext::ext_check(pt, min, s)) {
+                        Err(pi) => l.subject_panic("parse:third-party", &pi, || hex_short(s)),
+                        Ok(Err(_)) => {}
+                        Ok(Ok(())) => {
+                            accepted = true;
+                            l.hit("accepted:third-party parser");
+                            l.validated += 1;
+                            let d = read::framing_defects(s, Some(pt), min);
+                            if !d.is_empty() {
+                                l.violation(format!("ill-framed-accepted:third-party:{}", d[0]), || format!("Ext<{},{}> {}", pt, min, hex_short(s)), || format!("{:?}", d));
+                            }
                         }
                     }
                 }
